@@ -48,6 +48,27 @@ MONITORS = {
 }
 
 
+_CL = ("three real RawNode<MemStorage> voters, synchronous Ready handling, a network that delays / reorders / duplicates / drops messages and partitions nodes; "
+       "random schedules (12..70 ops) of ticks, campaigns, proposals, read requests, deliveries; pre_vote / check_quorum on or off: ")
+CLUSTER = {
+    "C08": {"bin": "mon_cluster", "args": ["--prop", "C08"], "quick": 15000, "thorough": 300000, "what": _CL + "every ReadState appears on the issuing node with index >= the highest commit index any node had reached at issue time"},
+    "C05": {"bin": "mon_cluster", "args": ["--prop", "C05"], "quick": 4000, "thorough": 300000, "what": _CL + "log matching between every pair of nodes after every step"},
+    "C03": {"bin": "mon_cluster", "args": ["--prop", "C03"], "quick": 4000, "thorough": 300000, "what": _CL + "leader completeness: committed prefixes are contained in the log of every leader of a later-or-equal term; one value per applied index"},
+    "C20": {"bin": "mon_cluster", "args": ["--prop", "C20"], "quick": 15000, "thorough": 300000, "what": _CL + "no library call panics (read contexts are reused, also by different nodes)"},
+    "C04": {"bin": "mon_cluster", "args": ["--prop", "C04"], "quick": 4000, "thorough": 300000, "what": _CL + "a leader's commit index is stored on a majority"},
+}
+
+
+def monitors_of(P):
+    """All replay monitors registered for P (component-level first, then the cluster-level one)."""
+    out = []
+    if P in MONITORS:
+        out.append(MONITORS[P])
+    if P in CLUSTER:
+        out.append(CLUSTER[P])
+    return out
+
+
 def _crate_for(repo):
     """Cargo project that depends on `repo` by path (the committed one points at /repo)."""
     if os.path.realpath(repo) == "/repo":
@@ -82,8 +103,8 @@ def build(repo, binname, timeout=900):
     return os.path.join(TARGET, "debug", binname), ""
 
 
-def run_monitor(P, repo, seed, cases=None, replay_input=None, timeout=1200):
-    mon = MONITORS.get(P)
+def run_monitor(P, repo, seed, cases=None, replay_input=None, timeout=1200, mon=None):
+    mon = mon or MONITORS.get(P) or CLUSTER.get(P)
     if mon is None:
         return {"status": "none"}
     t0 = time.time()
@@ -120,32 +141,38 @@ def run_monitor(P, repo, seed, cases=None, replay_input=None, timeout=1200):
 
 def find_witness(P, failure, repo, seed=1):
     """Concrete failing input on the real crate for a failed/undecided obligation of P, or None."""
-    mon = MONITORS.get(P)
-    if mon is None:
-        return None
-    r = run_monitor(P, repo, seed, cases=mon["quick"])
-    if r.get("status") == "violation" and r.get("input"):
-        return {"monitor": mon["bin"], "input": r["input"], "observed": r.get("violation"), "cmd": r.get("cmd")}
+    for mon in monitors_of(P):
+        r = run_monitor(P, repo, seed, cases=mon["quick"], mon=mon)
+        if r.get("status") == "violation" and r.get("input"):
+            return {"monitor": mon["bin"], "args": mon.get("args", []), "input": r["input"], "observed": r.get("violation"), "cmd": r.get("cmd")}
     return None
 
 
 def run_extra(P, tier, seed, repo):
     """Thorough tier: bounded replay of the real crate."""
-    mon = MONITORS.get(P)
-    if mon is None or tier != "thorough":
+    if tier != "thorough":
         return {}
-    r = run_monitor(P, repo, seed or 1, cases=mon["thorough"])
-    out = {"replay_monitor": {"monitor": mon["bin"], "status": r.get("status"), "cases": r.get("cases"), "what": mon["what"],
-                              "wall_s": r.get("wall_s"), "note": "bounded replay on the real crate; never counted as proved"}}
-    if r.get("status") == "violation":
-        out["witness"] = {"monitor": mon["bin"], "input": r.get("input"), "observed": r.get("violation"), "cmd": r.get("cmd")}
+    out = {}
+    reps = []
+    for mon in monitors_of(P):
+        r = run_monitor(P, repo, seed or 1, cases=mon["thorough"], mon=mon)
+        reps.append({"monitor": mon["bin"] + " " + " ".join(mon.get("args", [])), "status": r.get("status"), "cases": r.get("cases"), "what": mon["what"],
+                     "wall_s": r.get("wall_s"), "note": "bounded replay on the real crate; never counted as proved"})
+        if r.get("status") == "violation" and "witness" not in out:
+            out["witness"] = {"monitor": mon["bin"], "args": mon.get("args", []), "input": r.get("input"), "observed": r.get("violation"), "cmd": r.get("cmd")}
+    if reps:
+        out["replay_monitor"] = reps if len(reps) > 1 else reps[0]
     return out
 
 
 def replay(body, repo):
     P = body["property"]
     w = body.get("witness") or {}
-    r = run_monitor(P, repo, 1, replay_input=w.get("input"))
+    mon = None
+    for m in monitors_of(P):
+        if m["bin"] == w.get("monitor"):
+            mon = m
+    r = run_monitor(P, repo, 1, replay_input=w.get("input"), mon=mon)
     if r.get("status") == "violation":
         print("VIOLATION property=%s replay=%s" % (P, body.get("_path", "")))
         print("  " + (r.get("violation") or ""))
